@@ -81,8 +81,10 @@ VARIABLES entries,      \* what the user imports
           order,        \* the keys of sys.modules (a module moves to the end when its body finishes)
           phase,        \* "import" | "ready" | "calling" | "called" | "failed"
           cur,          \* function being called
-          fail
-vars == <<entries, ms, g, stack, order, phase, cur, fail>>
+          fail,         \* the exception that is being raised (NoFail: none)
+          caught        \* an exception was caught by a handler of a module body, or a branch whose test the
+                        \* extractor cannot decide was taken: the static reference below is then not exact
+vars == <<entries, ms, g, stack, order, phase, cur, fail, caught>>
 
 Min(S) == CHOOSE x \in S : \A y \in S : x <= y
 
@@ -90,7 +92,8 @@ RECURSIVE Prefixes(_)
 Prefixes(m) == IF Parent[m] = "" THEN <<m>> ELSE Append(Prefixes(Parent[m]), m)
 
 UserImport(m) == [op |-> "import", mod |-> m, pre |-> Prefixes(m), name |-> "", sub |-> "", bind |-> "",
-                  val |-> "", root |-> "", rv |-> "", links |-> <<>>, line |-> 0]
+                  val |-> "", root |-> "", rv |-> "", links |-> <<>>, line |-> 0,
+                  hI |-> 0, hN |-> 0, hA |-> 0, to |-> 0]
 
 Top == stack[Len(stack)]
 BodyOf(fr) == CASE fr.k = "mod" -> Body[fr.id]
@@ -114,12 +117,12 @@ Start(m) == /\ ms' = [ms EXCEPT ![m] = "running"]
             /\ g' = [g EXCEPT ![m] = [n \in (IF IsPkg[m] THEN PkgImplicit ELSE Implicit) |-> OBJ]]
             /\ stack' = Append(stack, [k |-> "mod", id |-> m, pc |-> 1])
             /\ order' = Append(order, m)
-            /\ UNCHANGED <<entries, phase, cur, fail>>
+            /\ UNCHANGED <<entries, phase, cur, fail, caught>>
 
 FailureOn(kind, on, name) ==
                        /\ fail' = [kind |-> kind, m |-> CurMod, on |-> on, name |-> name, line |-> Stmt.line]
-                       /\ phase' = "failed"
-                       /\ UNCHANGED <<entries, ms, g, stack, order, cur>>
+                       /\ phase' = "raising"
+                       /\ UNCHANGED <<entries, ms, g, stack, order, cur, caught>>
 Failure(kind, name) == FailureOn(kind, "", name)
 
 \* the submodule `from pkg import sub` falls back to
@@ -137,7 +140,7 @@ LoadModule == /\ AtStmt /\ IsImp(Stmt)
 BindImport == /\ AtStmt /\ Stmt.op = "import" /\ FirstAbsent(Stmt.pre) = 0
               /\ g' = Bound(Stmt.bind, Stmt.val)
               /\ stack' = Advanced
-              /\ UNCHANGED <<entries, ms, order, phase, cur, fail>>
+              /\ UNCHANGED <<entries, ms, order, phase, cur, fail, caught>>
 
 FromValue(s) == IF s.name \in DOMAIN g[s.mod] THEN g[s.mod][s.name] ELSE SubOf(s)
 FromOk(s) == \/ s.name \in DOMAIN g[s.mod]
@@ -146,7 +149,7 @@ FromOk(s) == \/ s.name \in DOMAIN g[s.mod]
 BindFrom == /\ AtStmt /\ Stmt.op = "from" /\ FirstAbsent(Stmt.pre) = 0 /\ FromOk(Stmt)
             /\ g' = Bound(Stmt.bind, FromValue(Stmt))
             /\ stack' = Advanced
-            /\ UNCHANGED <<entries, ms, order, phase, cur, fail>>
+            /\ UNCHANGED <<entries, ms, order, phase, cur, fail, caught>>
 
 StarNames(m) == IF m \in DOMAIN All THEN All[m] ELSE {}
 StarImport == /\ AtStmt /\ Stmt.op = "star" /\ FirstAbsent(Stmt.pre) = 0
@@ -155,7 +158,7 @@ StarImport == /\ AtStmt /\ Stmt.op = "star" /\ FirstAbsent(Stmt.pre) = 0
                       THEN [g EXCEPT ![Top.id] = [n \in All[Stmt.mod] |-> g[Stmt.mod][n]] @@ @]
                       ELSE g
               /\ stack' = Advanced
-              /\ UNCHANGED <<entries, ms, order, phase, cur, fail>>
+              /\ UNCHANGED <<entries, ms, order, phase, cur, fail, caught>>
 
 ImportFails == /\ AtStmt
                /\ \/ /\ IsImp(Stmt) /\ FirstAbsent(Stmt.pre) # 0
@@ -167,17 +170,60 @@ ImportFails == /\ AtStmt
                      /\ Stmt.mod \in DOMAIN All /\ ~(All[Stmt.mod] \subseteq DOMAIN g[Stmt.mod])
                      /\ Failure("AttributeError", CHOOSE n \in All[Stmt.mod] : n \notin DOMAIN g[Stmt.mod])
                   \/ /\ Stmt.op = "fail"
-                     /\ Failure("ImportError", Stmt.name)
+                     /\ Failure(IF Stmt.val = "" THEN "ImportError" ELSE Stmt.val, Stmt.name)
+
+(***************************************************************************)
+(* An exception raised by a statement of a module body continues at the    *)
+(* handler of the enclosing try statement that catches its class (the      *)
+(* extractor records its position in hI / hN / hA).  Without a handler the *)
+(* body is abandoned: _load_unlocked removes the module from sys.modules   *)
+(* and the exception arrives at the import statement that loaded it.       *)
+(***************************************************************************)
+HandlerOf(s, kind) == CASE kind \in {"ImportError", "ModuleNotFoundError"} -> s.hI
+                        [] kind = "NameError" -> s.hN
+                        [] kind = "AttributeError" -> s.hA
+                        [] OTHER -> 0
+BasePhase == IF stack[1].k = "user" THEN "import" ELSE "calling"
+Pop == SubSeq(stack, 1, Len(stack) - 1)
+Unwind == /\ phase = "raising" /\ stack # <<>>
+          /\ IF HandlerOf(Stmt, fail.kind) # 0
+             THEN /\ stack' = [stack EXCEPT ![Len(stack)].pc = HandlerOf(Stmt, fail.kind)]
+                  /\ phase' = BasePhase /\ fail' = NoFail /\ caught' = TRUE
+                  /\ UNCHANGED <<entries, ms, g, order, cur>>
+             ELSE IF Top.k = "mod"
+             THEN /\ ms' = [ms EXCEPT ![Top.id] = "absent"]
+                  /\ g' = [g EXCEPT ![Top.id] = <<>>]
+                  /\ order' = SelectSeq(order, LAMBDA x : x # Top.id)
+                  /\ stack' = Pop
+                  /\ UNCHANGED <<entries, phase, cur, fail, caught>>
+             ELSE IF Top.k = "fun" /\ Len(stack) > 1
+             THEN stack' = Pop /\ UNCHANGED <<entries, ms, g, order, phase, cur, fail, caught>>
+             ELSE phase' = "failed" /\ UNCHANGED <<entries, ms, g, stack, order, cur, fail, caught>>
+
+\* control flow of a module body: the end of a try body skips the handlers; either branch of an `if` the
+\* extractor cannot decide; a function of the module called while the module is imported runs its imports
+Jump == /\ AtStmt /\ Stmt.op = "jump"
+        /\ stack' = [stack EXCEPT ![Len(stack)].pc = Stmt.to]
+        /\ UNCHANGED <<entries, ms, g, order, phase, cur, fail, caught>>
+Branch == /\ AtStmt /\ Stmt.op = "branch"
+          /\ \/ stack' = Advanced
+             \/ stack' = [stack EXCEPT ![Len(stack)].pc = Stmt.to]
+          /\ caught' = TRUE
+          /\ UNCHANGED <<entries, ms, g, order, phase, cur, fail>>
+CallF == /\ AtStmt /\ Stmt.op = "callf"
+         /\ stack' = IF Stmt.name \in Funcs THEN Append(Advanced, [k |-> "fun", id |-> Stmt.name, pc |-> 1]) ELSE Advanced
+         /\ caught' = TRUE           \* what it imports is not part of the static import graph below
+         /\ UNCHANGED <<entries, ms, g, order, phase, cur, fail>>
 
 DefName == /\ AtStmt /\ Stmt.op = "def"
            /\ g' = Bound(Stmt.bind, OBJ)
            /\ stack' = Advanced
-           /\ UNCHANGED <<entries, ms, order, phase, cur, fail>>
+           /\ UNCHANGED <<entries, ms, order, phase, cur, fail, caught>>
 
 DelName == /\ AtStmt /\ Stmt.op = "del" /\ Top.k = "mod"
            /\ g' = [g EXCEPT ![Top.id] = [n \in (DOMAIN @) \ {Stmt.bind} |-> @[n]]]
            /\ stack' = Advanced
-           /\ UNCHANGED <<entries, ms, order, phase, cur, fail>>
+           /\ UNCHANGED <<entries, ms, order, phase, cur, fail, caught>>
 
 (***************************************************************************)
 (* Resolution of  root.l1.l2...  seen from module m.  A link is looked up  *)
@@ -199,14 +245,13 @@ ChainRes(m, c) == IF c.rv = "" /\ ~NameBound(m, c.root) THEN [ok |-> FALSE, on |
 
 UseName == /\ AtStmt /\ Stmt.op = "use" /\ ChainRes(CurMod, Stmt).ok
            /\ stack' = Advanced
-           /\ UNCHANGED <<entries, ms, g, order, phase, cur, fail>>
+           /\ UNCHANGED <<entries, ms, g, order, phase, cur, fail, caught>>
 
 UseFails == /\ AtStmt /\ Stmt.op = "use" /\ ~ChainRes(CurMod, Stmt).ok
             /\ LET r == ChainRes(CurMod, Stmt) IN
                IF r.on = "" THEN Failure("NameError", r.attr) ELSE FailureOn("AttributeError", r.on, r.attr)
 
 AtEnd(kind) == Running /\ Top.k = kind /\ Top.pc > Len(BodyOf(Top))
-Pop == SubSeq(stack, 1, Len(stack) - 1)
 
 EndModule == /\ AtEnd("mod")
              /\ ms' = [ms EXCEPT ![Top.id] = "loaded"]
@@ -214,11 +259,11 @@ EndModule == /\ AtEnd("mod")
              /\ stack' = Pop
              \* _load_unlocked: module = sys.modules.pop(name); sys.modules[name] = module
              /\ order' = Append(SelectSeq(order, LAMBDA x : x # Top.id), Top.id)
-             /\ UNCHANGED <<entries, phase, cur, fail>>
+             /\ UNCHANGED <<entries, phase, cur, fail, caught>>
 
 EndUser == /\ AtEnd("user")
            /\ stack' = <<>> /\ phase' = "ready"
-           /\ UNCHANGED <<entries, ms, g, order, cur, fail>>
+           /\ UNCHANGED <<entries, ms, g, order, cur, fail, caught>>
 
 \* After a call that imported nothing the interpreter is in the state it was in before the call, so only
 \* calls that executed import statements need to be continued (same reachable namespaces, far fewer edges).
@@ -227,21 +272,26 @@ Call(f) == /\ stack = <<>>
            /\ ms[FMod[f]] = "loaded"
            /\ stack' = <<[k |-> "fun", id |-> f, pc |-> 1]>>
            /\ phase' = "calling" /\ cur' = f
-           /\ UNCHANGED <<entries, ms, g, order, fail>>
+           /\ UNCHANGED <<entries, ms, g, order, fail, caught>>
 
-EndCall == /\ AtEnd("fun")
+EndCallF == /\ AtEnd("fun") /\ Len(stack) > 1
+            /\ stack' = Pop
+            /\ UNCHANGED <<entries, ms, g, order, phase, cur, fail, caught>>
+
+EndCall == /\ AtEnd("fun") /\ Len(stack) = 1
            /\ stack' = <<>> /\ phase' = "called"
-           /\ UNCHANGED <<entries, ms, g, order, cur, fail>>
+           /\ UNCHANGED <<entries, ms, g, order, cur, fail, caught>>
 
 InitWith(es) == /\ entries = es
                 /\ ms = [m \in Modules |-> "absent"]
                 /\ g = [m \in Modules |-> <<>>]
                 /\ stack = <<[k |-> "user", id |-> "__main__", pc |-> 1]>>
-                /\ order = <<>> /\ phase = "import" /\ cur = "" /\ fail = NoFail
+                /\ order = <<>> /\ phase = "import" /\ cur = "" /\ fail = NoFail /\ caught = FALSE
 Init == \E es \in EntryLists : InitWith(es)
 
 Step == \/ LoadModule \/ BindImport \/ BindFrom \/ StarImport \/ ImportFails
         \/ DefName \/ DelName \/ UseName \/ UseFails \/ EndModule \/ EndUser \/ EndCall
+        \/ Unwind \/ Jump \/ Branch \/ CallF \/ EndCallF
 Next == Step \/ \E f \in Funcs : Call(f)
 Spec == Init /\ [][Next]_vars
 
@@ -317,34 +367,43 @@ LocalsResolve == phase = "called" => DeadLoads(cur) = {}
 
 GlobalsResolve == phase = "called" => BadLoads(cur) = {}
 ChainsResolve == phase = "called" => BadChains(cur) = {}
-ImportsSucceed == fail = NoFail
+ImportsSucceed == phase # "failed"         \* an exception that a handler of a module body catches is no failure
 
 TypeOK == /\ \A m \in Modules : ms[m] \in {"absent", "running", "loaded"}
           /\ \A m \in Modules : ms[m] = "absent" <=> DOMAIN g[m] = {}
           /\ \A i \in 1..Len(stack) : stack[i].k = "mod" => ms[stack[i].id] = "running"
           /\ {m \in Modules : ms[m] = "running"} = {stack[i].id : i \in {j \in 1..Len(stack) : stack[j].k = "mod"}}
           /\ {order[i] : i \in 1..Len(order)} = {m \in Modules : ms[m] # "absent"}
-          /\ phase \in {"import", "ready", "calling", "called", "failed"}
+          /\ phase \in {"import", "ready", "calling", "called", "raising", "failed"}
+          /\ (phase \in {"raising", "failed"}) <=> (fail # NoFail)
 
 (***************************************************************************)
 (* Declarative reference: what `import X` loads is the closure of X under  *)
 (* the static import graph; what a module contains afterwards is what its  *)
 (* body binds plus its initialised submodules.                             *)
 (***************************************************************************)
+\* the statements of a body that run when nothing raises (handlers are jumped over)
+NextPcs(m, i) == IF Body[m][i].op = "jump" THEN {Body[m][i].to}
+                 ELSE IF Body[m][i].op = "branch" THEN {i + 1, Body[m][i].to} ELSE {i + 1}
+RECURSIVE PcClosure(_, _)
+PcClosure(m, S) == LET T == S \cup UNION {NextPcs(m, i) : i \in {j \in S : j <= Len(Body[m])}}
+                   IN  IF T = S THEN S ELSE PcClosure(m, T)
+NormalPcs(m) == {i \in PcClosure(m, {1}) : i <= Len(Body[m])}
 Binds(s) == IF s.op \in {"import", "from", "def"} /\ s.bind # "" THEN {s.bind} ELSE {}
-StaticNames(m) == UNION {Binds(Body[m][i]) : i \in 1..Len(Body[m])}
-StarredNames(m) == UNION {IF Body[m][i].op = "star" THEN StarNames(Body[m][i].mod) ELSE {} : i \in 1..Len(Body[m])}
-Deleted(m) == {Body[m][i].bind : i \in {j \in 1..Len(Body[m]) : Body[m][j].op = "del"}}
+StaticNames(m) == UNION {Binds(Body[m][i]) : i \in NormalPcs(m)}
+StarredNames(m) == UNION {IF Body[m][i].op = "star" THEN StarNames(Body[m][i].mod) ELSE {} : i \in NormalPcs(m)}
+Deleted(m) == {Body[m][i].bind : i \in {j \in NormalPcs(m) : Body[m][j].op = "del"}}
 StmtDeps(s) == IF ~IsImp(s) THEN {}
                ELSE ({s.pre[i] : i \in 1..Len(s.pre)}
                      \cup (IF s.op = "from" /\ SubOf(s) # "" /\ s.name \notin StaticNames(s.mod) THEN {s.sub} ELSE {}))
                     \cap Modules
-Deps(m) == UNION {StmtDeps(Body[m][i]) : i \in 1..Len(Body[m])}
+Deps(m) == UNION {StmtDeps(Body[m][i]) : i \in NormalPcs(m)}
 RECURSIVE ClosureFrom(_)
 ClosureFrom(S) == LET T == S \cup UNION {Deps(m) : m \in S} IN IF T = S THEN S ELSE ClosureFrom(T)
 EntryMods == UNION {{Prefixes(entries[i])[j] : j \in 1..Len(Prefixes(entries[i]))} : i \in 1..Len(entries)}
 
-Pristine == phase = "ready" /\ cur = ""
+Ready == phase = "ready" /\ cur = ""
+Pristine == Ready /\ ~caught
 LoadedIsClosure == Pristine => Loaded = ClosureFrom(EntryMods)
 NamesAreStatic == Pristine => \A m \in Loaded :
     (DOMAIN g[m]) \cup Deleted(m) =
@@ -356,7 +415,7 @@ NamesAreStatic == Pristine => \A m \in Loaded :
 (* must be in after the imports, and every unresolved reference.           *)
 (***************************************************************************)
 Emitted ==
-    /\ Pristine => PrintT(ToJson([t |-> "ready", entries |-> entries, order |-> order,
+    /\ Ready => PrintT(ToJson([t |-> "ready", entries |-> entries, order |-> order,
                                   mods |-> [m \in Loaded |-> g[m]],
                                   missing |-> {[m |-> p[1], name |-> p[2]] : p \in MissingAll}]))
     /\ (phase = "called" /\ (BadLoads(cur) # {} \/ BadChains(cur) # {} \/ DeadLoads(cur) # {})) =>
